@@ -37,6 +37,7 @@ ROUTINES = ["thread_create", "thread_create", "thread_create", "thread_create_to
             "mutex_attr_create", "cond_create", "rwlock_create", "eventual_create", "future_create",
             "barrier_create", "xstream_barrier_create", "timer_create", "timer_dup",
             "thread_attr_create"]
+LEVEL = "fault_enumeration"
 LP = ["malloc", "mmap_rp", "mmap_hp_rp", "mmap_hp_thp", "thp"]
 
 
